@@ -589,10 +589,60 @@ func pipelinedStartTLS(w *hx.W) {
 	}
 }
 
+// pipelinedLogout: LOGOUT ends command processing even when more commands are already in the
+// server's read buffer (sent in the same segment): exactly one BYE, only LOGOUT's own tagged
+// reply, no backend call other than Close, connection closed.
+func pipelinedLogout(w *hx.W) {
+	for _, state := range []string{"notauth", "auth", "selected"} {
+		for vi, rest := range []string{"z2 NOOP\r\n", "z2 CAPABILITY\r\nz3 LOGOUT\r\n", "z2 SELECT box\r\nz3 FETCH 1 FLAGS\r\n", "z2 LOGIN user pass\r\n", "z2 CREATE x\r\nz3 NOOP\r\n"} {
+			srv := kit.NewServer(kit.ServerCfg{Caps: capsOf("rev1+ext", kit.SessFull), InsecureAuth: true, Kind: kit.SessFull})
+			srv.B.Handler = handler
+			raw := srv.Dial()
+			raw.Sync()
+			if state != "notauth" {
+				raw.SendStr("p1 LOGIN user pass\r\n")
+				raw.Sync()
+			}
+			if state == "selected" {
+				raw.SendStr("p2 SELECT box\r\n")
+				raw.Sync()
+			}
+			base := srv.B.NCalls()
+			raw.SendStr("z1 LOGOUT\r\n" + rest)
+			out, cond := raw.Sync()
+			lines, _ := kit.ParseResponses(out)
+			nBye := 0
+			for _, l := range lines {
+				if l.Tag == "*" && l.Status == "BYE" {
+					nBye++
+				}
+				if l.Tag != "*" && l.Tag != "+" && l.Tag != "z1" {
+					w.Violation("command-processed-after-logout@"+state, fmt.Sprintf("state %s: %q was answered although it follows LOGOUT (server output %q)", state, l.Tag, out), nil)
+				}
+			}
+			if nBye != 1 || cond != "closed" {
+				w.Violation("logout-does-not-end-processing@"+state, fmt.Sprintf("state %s: LOGOUT followed by pipelined commands: %d BYE responses, connection %s (server output %q)", state, nBye, cond, out), nil)
+			}
+			for _, c := range srv.B.CallsSince(base) {
+				if c.Method != "Close" && c.Method != "Unselect" {
+					w.Violation("backend-call-after-logout@"+c.Method, fmt.Sprintf("state %s: Session.%s was called for a command pipelined behind LOGOUT", state, c.Method), nil)
+				}
+			}
+			raw.Close()
+			srv.Close()
+			w.CaseStr(fmt.Sprintf("pipelined-logout|%s|%d", state, vi))
+			w.Class("pipelined-logout/" + state)
+		}
+	}
+}
+
 func body(w *hx.W) {
 	kit.SyncTimeout = 60 * time.Second
 	if w.Shard == 0 {
 		pipelinedStartTLS(w)
+	}
+	if w.Shard == 1%w.NShards {
+		pipelinedLogout(w)
 	}
 	var cfgs []config
 	for _, tr := range []string{"plain", "tls", "starttls"} {
